@@ -814,6 +814,27 @@ func (x *Exec) evalCall(env *Env, e *SExpr) Val {
 			return mathVal(t)
 		}
 		x.evalFail("rangepos(): no range-over-string iterator")
+	case "store":
+		// store(seq, i, v): the mathematical sequence seq updated at i
+		return mathVal(Store(arg(0).L[0], arg(1).Term(), arg(2).Term()))
+	case "strid":
+		// strid(s): an integer identity of the string value s (equal values of the same
+		// origin have equal identities; nothing else is assumed)
+		return mathVal(x.mapKeyTerm(env.st, arg(0)))
+	case "visited":
+		// visited(k): the (only) range-over-map loop of the function has produced key k
+		var vis *Term
+		n := 0
+		for k, t := range env.st.ghost {
+			if strings.HasPrefix(k, "iter!") && strings.HasSuffix(k, "!vis") {
+				vis = t
+				n++
+			}
+		}
+		if n != 1 {
+			x.evalFail("visited(): the function needs exactly one range-over-map loop in scope (found %d)", n)
+		}
+		return mathVal(Select(vis, arg(0).Term()))
 	case "ghost":
 		// ghost("name"): current value of an engine ghost variable
 		key := e.Args[0].Str
@@ -834,7 +855,23 @@ func (x *Exec) evalCall(env *Env, e *SExpr) Val {
 		return mathVal(Ge(r, Var("brk@0", IntS)))
 	case "typeis":
 		v := arg(0)
-		return mathVal(Eq(v.L[0], x.E.typeTagByName(env.pkgPath, e.Args[1].String())))
+		tn := e.Args[1].Str
+		if tn == "" {
+			tn = e.Args[1].String()
+		}
+		return mathVal(Eq(v.L[0], x.E.typeTagByName(env.pkgPath, tn)))
+	case "unbox":
+		// unbox(v, "T"): the value of dynamic type T held by the interface value v
+		v := arg(0)
+		t := x.E.typeByName(env.pkgPath, e.Args[1].Str)
+		if t == nil {
+			x.evalFail("unbox: unknown type %q", e.Args[1].Str)
+		}
+		if isRefLike(t) {
+			return Val{T: t, L: []*Term{v.L[1]}}
+		}
+		a := &Addr{K: AHeap, Key: "box:" + typeKey(t), Ref: v.L[1], T: t, contT: t}
+		return x.loadAddr(env.st, a)
 	case "same":
 		a, b := arg(0), arg(1)
 		if len(a.L) != len(b.L) {
